@@ -276,10 +276,10 @@ func judgeC13(w *World, order []*Peer, scriptDied map[*Peer]bool, src *Peer, all
 	for _, pr := range order {
 		isX[pr.Idx] = pr
 	}
-	acceptedAt := map[int]uint64{}  // CONNACK(0) entered Send
-	terminated := map[int]uint64{}  // Terminate returned
+	acceptedAt := map[int]uint64{} // CONNACK(0) entered Send
+	terminated := map[int]uint64{} // Terminate returned
 	termEnter := map[int]uint64{}
-	willDone := map[int]uint64{}    // the will's Publish returned
+	willDone := map[int]uint64{} // the will's Publish returned
 	willCount := map[int]int{}
 	disconnected := map[int]bool{}
 	setupOK := map[int]bool{}
